@@ -526,7 +526,6 @@ class HTTPWARCRecorderSession(BaseWARCRecorderSession):
         self._request_record = None
         self._response_record = None
         self._response_temp_file = self._new_temp_file(hint='warcsesrsp')
-        self._response_payload_offset = None
 
     def close(self):
         super().close()
@@ -579,15 +578,11 @@ class HTTPWARCRecorderSession(BaseWARCRecorderSession):
             WARCRecord.WARC_RECORD_ID]
         record.block_file = self._response_temp_file
 
-        # The header block has been received, and recorded as it appeared
-        # on the wire, by the time this event fires.
-        self._response_payload_offset = self._response_temp_file.tell()
-
     def response_data(self, data: bytes):
         self._response_temp_file.write(data)
 
     def end_response(self, response: HTTPResponse):
-        payload_offset = self._response_payload_offset
+        payload_offset = self._find_response_payload_offset(response)
 
         self._response_record.block_file.seek(0)
         self._recorder.set_length_and_maybe_checksums(
@@ -599,6 +594,21 @@ class HTTPWARCRecorderSession(BaseWARCRecorderSession):
             self._record_revisit(payload_offset)
 
         self._recorder.write_record(self._response_record)
+
+    def _find_response_payload_offset(self, response: HTTPResponse) -> int:
+        '''Return the length of the header block as recorded from the wire.
+
+        The block holds the server's own formatting (line endings, spacing,
+        folding) which the re-serialized response does not reproduce.
+        '''
+        self._response_temp_file.seek(0)
+        data = self._response_temp_file.read(65536)
+        match = re.search(br'\r?\n\r?\n', data)
+
+        if match:
+            return match.end()
+        else:
+            return len(response.to_bytes())
 
     def _record_revisit(self, payload_offset: int):
         '''Record the revisit if possible.'''
